@@ -125,7 +125,12 @@ pub fn reachable<P>(s: &VerifSnapshot<P>) -> Vec<bool> {
 pub fn check_slots<P>(s: &VerifSnapshot<P>) -> Result<(), String> {
     let len = s.slots.len();
     if len == 0 {
-        return Err("arena has no slot at all (sentinel missing)".into());
+        // an arena that has not been allocated yet (lazily created by the first insertion) has no slot to
+        // account for; it must then hold no tree and no free index either
+        if s.root != EMPTY_REF || !s.free.is_empty() {
+            return Err("arena has no slot at all, but a root or free indices are recorded".into());
+        }
+        return Ok(());
     }
     let live = reachable(s);
     let mut free = vec![false; len];
